@@ -1106,7 +1106,7 @@ def call_method(I, fr, name, base, args, kwargs, node):
                 def upd(a, v=v, keep=keep, accname=accname):
                     n = I.elem_join(a, v, None)
                     return n.replace(mono=frozenset([0]) if keep else frozenset(), note=("accof:" + accname) if keep else None)
-                I.mutate(fr, base, node, "list.append", upd)
+                I.mutate(fr, base, node, "list.append", upd, value=v)
                 fr.state.facts = frozenset(f for f in fr.state.facts if not (f[0] == "reset" and f[1] == accname)) | \
                     frozenset([("appended",)])
             elif name == "extend" and args:
